@@ -10,7 +10,7 @@ EXTRA = {  # reverse patches: which properties' checks should notice
     "revert-C12-base-cancellation": ["C12"], "revert-C17-angle-chunk-span": ["C17"],
     "revert-C10-title-comment": ["C10", "C17"], "revert-C19-lst-locale": ["C19"],
     "revert-C08-align-huge": ["C06", "C08"], "revert-C08-repeat-huge": ["C08", "C16"], "revert-C08-self-include": ["C08", "C16"],
-    "revert-C08-exponential-product": ["C08"], "revert-C08-exponential-ring2": ["C08"], "revert-C08-resource-errors": ["C08"], "revert-C08-repeat-quadratic": ["C08"],
+    "revert-C08-exponential-product": ["C08"], "revert-C08-exponential-ring2": ["C08"], "revert-C08-huge-shift": ["C08", "C05"], "revert-C08-resource-errors": ["C08"], "revert-C08-repeat-quadratic": ["C08"],
     "revert-C02-include-deferred-path": ["C02"],
 }
 def props_for(name):
